@@ -20,6 +20,6 @@ Extraction "model.ml"
   DirWindow.dir_window DirWindow.listing DirWindow.readdir_chunks IO.frun
   Path.attach_path Path.ufs_walk Path.create_path Path.rename_dest Path.symlink_ok Path.symlink_resolves Path.clean Path.split_slash Path.fwalk
   Handlers.dir2qidtype Handlers.dir2npmode Handlers.stat_mtime Handlers.stat_length Handlers.create_plan Handlers.wstat_plan Handlers.omode2uflags
-  Conc.step Conc.run Conc.init Model.crun Model.cinit_n Model.cstep
+  Conc.step Conc.run Conc.init Model.crun Model.cinit_n Model.cstep Model.live_tags
   Consts.c_Eunknownfid_text Consts.c_Einuse_text
   Consts.c_NOTAG Consts.c_NOFID Consts.c_NOUID Consts.c_IOHDRSZ.
